@@ -25,7 +25,8 @@
 (***************************************************************************)
 EXTENDS Integers, Sequences, FiniteSets, TLC, Json
 
-CONSTANTS SingleContexts, PairContexts
+CONSTANTS SingleContexts, PairContexts,
+          CheckObs   \* BOOLEAN: evaluate the O-style validation of the I: tags (irkinds.json) at start-up
 
 Contexts == {"func", "method", "closure", "generic", "init", "pkgvar"}
 
@@ -53,6 +54,7 @@ Atoms == {
     A("switch_string", FALSE, {"S:CaseClause", "S:SwitchStmt/tag"}),
     A("typeswitch", TRUE, {"I:TypeAssert", "I:TypeSwitch", "S:CaseClause", "S:TypeSwitchStmt/bind", "S:TypeSwitchStmt/nilcase", "S:TypeSwitchStmt/nobind"}),
     A("select", TRUE, {"E:UnaryExpr/recv", "I:Select", "S:CommClause", "S:SelectStmt", "S:SendStmt"}),
+    A("select_empty", FALSE, {"I:Select", "I:Unreachable", "S:SelectStmt"}),
     A("select_block", FALSE, {"S:CommClause", "S:GoStmt", "S:SelectStmt"}),
     A("labeled", TRUE, {"S:BranchStmt/break-label", "S:BranchStmt/continue-label", "S:LabeledStmt"}),
     A("goto", FALSE, {"S:BlockStmt", "S:BranchStmt/goto", "S:LabeledStmt"}),
@@ -72,10 +74,10 @@ Atoms == {
     A("conversions", FALSE, {"E:CallExpr/conversion", "I:ChangeType", "I:Convert"}),
     A("struct_conversion", FALSE, {"E:CallExpr/conversion", "E:CompositeLit/struct", "I:ChangeType"}),
     A("slice_array_conv", FALSE, {"E:CallExpr/conversion", "I:SliceToArray", "I:SliceToArrayPointer"}),
-    A("composite_struct", FALSE, {"E:CompositeLit/struct", "E:KeyValueExpr", "E:UnaryExpr/addr", "I:AggregateConst", "I:Alloc", "I:CompositeValue", "I:FieldAddr"}),
+    A("composite_struct", FALSE, {"E:CompositeLit/struct", "E:KeyValueExpr", "E:UnaryExpr/addr", "I:Alloc", "I:CompositeValue", "I:FieldAddr"}),
     A("composite_seq", FALSE, {"E:CompositeLit/array", "E:CompositeLit/elided", "E:CompositeLit/slice", "E:KeyValueExpr", "I:Slice"}),
     A("composite_map", FALSE, {"E:CompositeLit/elided", "E:CompositeLit/map", "E:KeyValueExpr", "I:MakeMap", "I:MapUpdate"}),
-    A("index", FALSE, {"E:IndexExpr/array", "E:IndexExpr/arrayptr", "E:IndexExpr/map", "E:IndexExpr/slice", "E:IndexExpr/string", "I:Extract", "I:Index", "I:IndexAddr", "I:MapLookup", "I:StringLookup"}),
+    A("index", FALSE, {"E:IndexExpr/array", "E:IndexExpr/arrayptr", "E:IndexExpr/map", "E:IndexExpr/slice", "E:IndexExpr/string", "I:Extract", "I:Index", "I:IndexAddr", "I:MapLookup"}),
     A("slice_expr", FALSE, {"E:SliceExpr/2", "E:SliceExpr/3", "E:SliceExpr/array", "E:SliceExpr/arrayptr", "E:SliceExpr/string", "I:Slice"}),
     A("selector", FALSE, {"E:SelectorExpr/embedded", "E:SelectorExpr/field", "E:SelectorExpr/method", "I:Field", "I:FieldAddr"}),
     A("method_values", FALSE, {"E:SelectorExpr/methodexpr", "E:SelectorExpr/methodvalue", "I:MakeClosure"}),
@@ -97,7 +99,7 @@ Atoms == {
     A("builtin_close", FALSE, {"B:close", "B:make"}),
     A("unsafe_ops", FALSE, {"B:unsafe.Add", "B:unsafe.Alignof", "B:unsafe.Offsetof", "B:unsafe.Sizeof", "B:unsafe.Slice", "B:unsafe.SliceData", "B:unsafe.String", "B:unsafe.StringData", "E:SelectorExpr/pkg"}),
     A("shifts", FALSE, {"E:BinaryExpr/shift", "S:AssignStmt/op="}),
-    A("string_ops", FALSE, {"E:IndexExpr/string", "E:SliceExpr/string", "I:StringLookup"}),
+    A("string_ops", FALSE, {"E:IndexExpr/string", "E:SliceExpr/string"}),
     A("nil_checks", FALSE, {"E:BinaryExpr/cmp", "E:BinaryExpr/logic"}),
     A("return_ptr", FALSE, {"I:MakeInterface", "S:ReturnStmt"}),
     A("blank", FALSE, {"I:BlankStore", "S:AssignStmt/=", "S:DeclStmt/var"}),
@@ -147,12 +149,16 @@ Builtins == {
 IRKindNames == {
   "Alloc", "Phi", "Call", "BinOp", "UnOp", "Load", "ChangeType", "Convert", "MultiConvert", "ChangeInterface",
   "SliceToArrayPointer", "SliceToArray", "MakeInterface", "MakeClosure", "MakeMap", "MakeChan", "MakeSlice",
-  "Slice", "FieldAddr", "Field", "IndexAddr", "Index", "MapLookup", "StringLookup", "Select", "Range", "Next",
-  "TypeAssert", "Extract", "Jump", "If", "TypeSwitch", "Return", "RunDefers", "Panic", "Go", "Defer", "Send",
-  "Recv", "Store", "BlankStore", "MapUpdate", "Const", "AggregateConst", "CompositeValue", "Parameter",
+  "Slice", "FieldAddr", "Field", "IndexAddr", "Index", "MapLookup", "Select", "Range", "Next",
+  "TypeAssert", "Extract", "Jump", "Unreachable", "If", "TypeSwitch", "Return", "RunDefers", "Panic", "Go", "Defer", "Send",
+  "Recv", "Store", "BlankStore", "MapUpdate", "Const", "CompositeValue", "Parameter",
   "FreeVar" }
-\* emitted only by optimisation passes / special situations; wanted, but their absence is reported, not fatal
-IRKindsOptional == {"ConstantSwitch", "Unreachable", "DebugRef", "Sigma", "Copy", "ArrayConst", "GenericConst", "ZeroConst"}
+\* ConstantSwitch is produced by an optimisation of if-chains, DebugRef by the GlobalDebug mode, StringLookup is
+\* declared in ssa.go but never constructed by the builder, AggregateConst only by a simplification that is
+\* switched off (doSimplifyConstantCompositeValues = false); Global / Builtin / Function are operands, not
+\* instructions.  They are reported when seen, their absence is not an error.
+IRKindsOptional == {"ConstantSwitch", "DebugRef", "StringLookup", "AggregateConst", "Global", "Builtin", "Function",
+                    "ArrayConst", "GenericConst", "ZeroConst"}
 IRKinds == {"I:" \o k : k \in IRKindNames}
 
 Required == StmtForms \cup ExprForms \cup Builtins \cup IRKinds
@@ -199,4 +205,5 @@ MissingIR == IRKindNames \ Observed
 UnknownIR == Observed \ (IRKindNames \cup IRKindsOptional)
 ObsReport == PrintT("IROBS " \o ToJson([missing |-> MissingIR, unknown |-> UnknownIR,
                                          optional_seen |-> Observed \cap IRKindsOptional]))
+ASSUME ObsOK == CheckObs => (ObsReport /\ ObservedCoversIR /\ UnknownIR = {})
 =============================================================================
